@@ -131,8 +131,21 @@ class Members:
 SIM = Members("reb_simulation")
 PART = Members("reb_particle")
 VC = Members("reb_variational_configuration")
-PART_PTR_RANGES = [(o, s) for (o, s, k, d) in PART.m.values() if k in ("ptr", "fptr")]
-VC_PTR_RANGES = [(o, s) for (o, s, k, d) in VC.m.values() if k in ("ptr", "fptr")]
+def _padding(mem):
+    cov = sorted((o, s) for (o, s, k, d) in mem.m.values())
+    out, pos = [], 0
+    for o, s in cov:
+        if o > pos:
+            out.append((pos, o - pos))
+        pos = max(pos, o + s)
+    if pos < mem.size:
+        out.append((pos, mem.size - pos))
+    return out
+
+
+# pointer members and struct padding (padding holds whatever was on the caller's stack) are not state
+PART_PTR_RANGES = [(o, s) for (o, s, k, d) in PART.m.values() if k in ("ptr", "fptr")] + _padding(PART)
+VC_PTR_RANGES = [(o, s) for (o, s, k, d) in VC.m.values() if k in ("ptr", "fptr")] + _padding(VC)
 
 
 def addr(sim):
